@@ -129,8 +129,9 @@ def tensor_key_serialized(t):
     return tensor_key(serde.deserialize_tensor(serde.serialize_tensor(t)))
 
 
-def attr_key(a):
-    """Key of a non-graph IR attribute."""
+def attr_key(a, tensor_key_fn=None):
+    """Key of a non-graph IR attribute (tensor_key_fn: how tensor-valued attributes are keyed; default tensor_key)."""
+    tensor_key_fn = tensor_key_fn or tensor_key
     import onnx_ir as ir
     T = ir.AttributeType
     doc = a.doc_string or ""
@@ -138,9 +139,9 @@ def attr_key(a):
         return ("ref", int(a.type), a.ref_attr_name, doc)
     v = a.value
     if a.type == T.TENSOR:
-        vk = tensor_key(v)
+        vk = tensor_key_fn(v)
     elif a.type == T.TENSORS:
-        vk = tuple(tensor_key(x) for x in v)
+        vk = tuple(tensor_key_fn(x) for x in v)
     elif a.type == T.TYPE_PROTO:
         vk = (type_key(v.type), shape_key(v.shape))
     elif a.type == T.TYPE_PROTOS:
@@ -416,14 +417,14 @@ def node_op_tok(it, n):
     return it.tok(("op", n.domain, n.op_type, n.overload))
 
 
-def ir_attr_entry(it, a):
+def ir_attr_entry(it, a, tensor_key_fn=None):
     """('plain', tok) | ('graph', Graph) | ('graphs', [Graph])"""
     import onnx_ir as ir
     if not a.is_ref() and a.type == ir.AttributeType.GRAPH:
         return ("graph", a.value)
     if not a.is_ref() and a.type == ir.AttributeType.GRAPHS:
         return ("graphs", list(a.value))
-    return ("plain", it.tok(attr_key(a)))
+    return ("plain", it.tok(attr_key(a, tensor_key_fn)))
 
 
 def function_tok(it, f):
@@ -459,7 +460,7 @@ def ir_obs(model, it: Interner, tensor_key_fn=tensor_key) -> str:
     for n in w.nodes:
         attrs = []
         for k, a in n.attributes.items():
-            kind, x = ir_attr_entry(it, a)
+            kind, x = ir_attr_entry(it, a, tensor_key_fn)
             if kind == "plain":
                 attrs.append(_t([_z(it.tok(k)), _z(0), _z(x)]))
             elif kind == "graph":
@@ -527,7 +528,7 @@ def ir_heap(model, it: Interner, tensor_key_fn=tensor_key) -> tuple[str, str, IR
     for n in w.nodes:
         attrs = []
         for k, a in n.attributes.items():
-            kind, x = ir_attr_entry(it, a)
+            kind, x = ir_attr_entry(it, a, tensor_key_fn)
             if kind == "plain":
                 attrs.append(f"({cNtok(it.tok(k))}, AtPlain {cNtok(x)} {common.cbool(attr_ser_bad(a))})")
             elif kind == "graph":
